@@ -4,6 +4,7 @@
 //!   pad=<N>         N bytes of comment lines before the answer
 //!   vwidth=<W>      literals per `v` line (default 8)
 //!   reply=<path>    print the file's bytes verbatim instead of solving (echo-file mode)
+//!   replyhex=<hex>  print these bytes verbatim instead of solving
 //!   fail=<kind>@<k> misbehave at the k-th call (1-based; k=0: every call):
 //!                   exit-silent | status-only | truncate-zero | truncate-token | truncate-mid |
 //!                   garbage-line | two-status | var-out-of-range | crash | unknown-status
@@ -114,6 +115,12 @@ fn main() {
     log_call(&args, call, &input, if rep.wellformed() { "ok" } else { "malformed" });
     if let Some(p) = opt(&args, "reply") {
         let bytes = std::fs::read(p).unwrap_or_default();
+        let _ = out.write_all(&bytes);
+        let _ = out.flush();
+        return;
+    }
+    if let Some(h) = opt(&args, "replyhex") {
+        let bytes: Vec<u8> = (0..h.len() / 2).filter_map(|i| u8::from_str_radix(&h[2 * i..2 * i + 2], 16).ok()).collect();
         let _ = out.write_all(&bytes);
         let _ = out.flush();
         return;
